@@ -275,6 +275,7 @@ func main() {
 	factsJailBody(arch)
 	factsUnpackDecision(arch)
 	factsOrder(arch)
+	factsSwitchRoot(*repo)
 	emit("")
 	emit("end GA.Facts")
 	fmt.Print(out.String())
